@@ -406,7 +406,8 @@ struct GramEngine {
                   }
                   bool all_ok = true, strict_ok2 = true;
                   for (auto &t : d.trees) { if (!loose_all.count(strip_idx(t))) { all_ok = false; V("C07", "tree-not-a-repair", "tree " + t + " is not the translation of any input repaired by replacing segments of " + std::to_string(Rtot) + " tokens in total by `error' (" + std::to_string(reps.size()) + " repairs tried)"); break; } if (!strict_all.count(t)) strict_ok2 = false; }
-                  if (all_ok && !strict_ok2) rep.add("c07_attribute_only_mismatch");
+                  if (all_ok && !strict_ok2) V("C07", "term-attribute", "the tree is a translation of a repaired input only if the attributes of its TERM nodes are ignored: some TERM node carries the attribute of a token other than the one it derives");
+                  if (all_ok && !strict_ok2) { rep.add("c07_attribute_only_mismatch"); if (getenv("VERIF_TRACE")) { std::string ts; for (auto &t : d.trees) ts += t + " "; std::string es; for (auto &e : o.errs) es += "(" + std::to_string(e.err) + "," + std::to_string(e.ign) + "," + std::to_string(e.rec) + ")"; fprintf(stderr, "ATTR %s | %s | errs %s | trees %s\n", addr.c_str(), gram_to_string(g).c_str(), es.c_str(), ts.c_str()); } }
                   if (all_ok && o.errs.size() == 1) {
                     // unique single-segment repair of that size explaining every tree
                     int cnt = 0, ua = -1, ub = -1;
